@@ -104,11 +104,32 @@ func genInstr(t *rapid.T, binary bool) Instr {
 
 var genInstrBin = rapid.Custom(func(t *rapid.T) Instr { return genInstr(t, true) })
 
+// hashTwins: pairs of identifiers with equal sums under the usual non-cryptographic hash
+// functions (FNV-1a 32, Java's 31-multiplier, CRC-32, djb2, Adler-32): a decoder that
+// caches or interns strings by hash alone confuses them. Random strings practically
+// never collide, so the pairs come from a dictionary (as one would seed a fuzzer).
+var hashTwins = [][2]string{{"costarring", "liquid"}, {"declinate", "macallums"}, {"altarage", "zinke"}, {"Aa", "BB"}, {"AaAa", "BBBB"},
+	{"plumless", "buckeroo"}, {"hetairas", "mentioner"}, {"heliotropes", "neurospora"}, {"aca", "bab"}}
+
 func genC14(t *rapid.T) C14Case {
+	var c C14Case
 	if rapid.Bool().Draw(t, "binary") {
-		return C14Case{Prog: genSlice(t, genInstrBin, 1, 30, "prog")}
+		c = C14Case{Prog: genSlice(t, genInstrBin, 1, 30, "prog")}
+	} else {
+		c = C14Case{Prog: genSlice(t, genInstrText, 1, 30, "prog")}
 	}
-	return C14Case{Prog: genSlice(t, genInstrText, 1, 30, "prog")}
+	if chancePct(t, 6, "twins") {
+		tw := hashTwins[uniformN(t, len(hashTwins), "twin")]
+		a, b := refdec.BS(tw[0]), refdec.BS(tw[1])
+		extra := [][]Instr{
+			{{Op: refdec.MOVE, Sym: a}, {Op: refdec.MOVE, Sym: b}},
+			{{Op: refdec.MOUT, Sym: a, Sel: "1"}, {Op: refdec.MOUT, Sym: b, Sel: "2"}},
+			{{Op: refdec.INCMP, Sym: a, Sel: b}, {Op: refdec.INCMP, Sym: b, Sel: a}},
+			{{Op: refdec.LOAD, Sym: a, Num: 1}, {Op: refdec.CATCH, Sym: b, Num: 8, Mode: true}},
+		}[uniformN(t, 4, "twinshape")]
+		c.Prog = append(c.Prog, extra...)
+	}
+	return c
 }
 
 // vmEncode encodes one instruction with the repository's own vm.NewLine.
@@ -516,4 +537,8 @@ func TestC14(t *testing.T) {
 	// boundary + random values also go through the per-case machinery so that they
 	// are sampled, hashed and shrunk like every other case
 	RunProp(t, "C14", "int", pick(20000, 200000), func(t *rapid.T) C14Int { return C14Int{genU32(t, "n")} }, checkC14Int)
+	if t.Failed() {
+		return
+	}
+	runConcC14(t)
 }
